@@ -17,7 +17,7 @@ def run(ctx):
                                "PKI generated at run time with the library (explicit SM2-SM3 algorithm)", "verif peer fault points (SKE / CertificateVerify bytes)"]
     fracs = 48 if thorough else 8
     with open(os.path.join(ctx.tladir(), "TLCPAdv.cfg"), "w") as f:
-        f.write("SPECIFICATION Spec\nCONSTANTS\n Fracs = %d\n ByteAll = %s\nINVARIANTS AuthServer AuthClient Agreement HonestCompletes LaxPoliciesAccept\nCONSTRAINT Emit\n"
+        f.write("SPECIFICATION Spec\nCONSTANTS\n Fracs = %d\n ByteAll = %s\nINVARIANTS AuthServer AuthClient Agreement HonestCompletes LaxPoliciesAccept ClockHonoured\nCONSTRAINT Emit\n"
                 % (fracs, "TRUE" if thorough else "FALSE"))
     r = ctx.tlc("TLCPAdv", "TLCPAdv.cfg", workers=1, timeout=600)
     rows = markers(r["out"], "CASE")
@@ -41,8 +41,8 @@ def run(ctx):
         probs = []
         # a crash of the endpoint that plays the attacker in this scenario (e.g. a server configured with an RSA
         # key where SM2 is required) is not this property's subject; the endpoint under test must not crash
-        srv_is_attacker = any(c[k] not in ("good", "right", "honest") for k in ("signCert", "encCert", "signKey", "encKey", "ske"))
-        cli_is_attacker = c["policy"] != "none" and any(c[k] not in ("good", "right", "honest") for k in ("cliCert", "cliKey", "cv"))
+        srv_is_attacker = any(c[k] not in ("good", "right", "honest", "long", "future") for k in ("signCert", "encCert", "signKey", "encKey", "ske"))
+        cli_is_attacker = c["policy"] != "none" and any(c[k] not in ("good", "right", "honest", "long", "future") for k in ("cliCert", "cliKey", "cv"))
         if g["CliPanic"] and not cli_is_attacker:
             probs.append("client panicked: %s" % g["CliPanic"][:300])
         if g["SrvPanic"] and not srv_is_attacker:
@@ -58,8 +58,10 @@ def run(ctx):
             probs.append("honest scenario did not complete: client err=%r server err=%r" % (g["CliErr"], g["SrvErr"]))
         if want_c and want_s and not probs and c["mitm"] == "none" and g["Suite"] != g["WantSuite"]:
             raise Infra("scenario %s ran under suite %04x instead of %04x" % (json.dumps(c), g["Suite"], g["WantSuite"]))
+        if c["veto"] != "none" and not g["VetoCalls"] and not probs:
+            probs.append("the %s's VerifyPeerCertificate callback was never run" % c["veto"])
         if probs:
-            diff = {k: v for k, v in c.items() if k in ("proto", "kx", "suite") or (v not in ("good", "right", "honest", "none", "") and not (k == "verify" and v is True))}
+            diff = {k: v for k, v in c.items() if k in ("proto", "kx", "suite") or (v not in ("good", "right", "honest", "none", "", "now") and not (k == "verify" and v is True))}
             ctx.violation("scenario %s: %s" % (json.dumps(diff, sort_keys=True), "; ".join(probs)), {"case": c, "expect": e, "observed": g})
         else:
             ok += 1
